@@ -73,13 +73,17 @@ def lib_case(case):
     os.dup2(os.open(os.path.join(root, ".git", "stderr.log"), os.O_WRONLY | os.O_CREAT | os.O_APPEND, 0o600), 2)
     evlog = os.path.join(root, ".git", "events.log")
     fd = os.open(evlog, os.O_WRONLY | os.O_CREAT | os.O_APPEND, 0o600)
-    orig_lint_file = core.Orchestrator.lint_file
+    # the per-file step every entry point goes through (sequential loop, directory walk, pool worker); the parent's second pass over the
+    # files for the cross-file rules names its rules explicitly and is not a dispatch
+    prim = "_lint_file_with_rules" if hasattr(core.Orchestrator, "_lint_file_with_rules") else "lint_file"
+    orig_lint_file = getattr(core.Orchestrator, prim)
 
-    def lint_file(self, file_path):
-        os.write(fd, ("%d\t%s\n" % (os.getpid(), file_path)).encode("utf-8", "surrogateescape"))
-        return orig_lint_file(self, file_path)
+    def lint_file(self, file_path, only_rules=None):
+        if only_rules is None:
+            os.write(fd, ("%d\t%s\n" % (os.getpid(), file_path)).encode("utf-8", "surrogateescape"))
+        return orig_lint_file(self, file_path, only_rules) if prim != "lint_file" else orig_lint_file(self, file_path)
 
-    core.Orchestrator.lint_file = lint_file
+    setattr(core.Orchestrator, prim, lint_file)
     paths = [Path(root) / f for f in sorted(case["files"])]
     rnd = random.Random(case["seed"])
     rnd.shuffle(paths)
